@@ -6,6 +6,7 @@ import (
 	"fmt"
 	"os"
 
+	"verifharness/audit"
 	"verifharness/mc"
 	"verifharness/props/reg"
 )
@@ -37,6 +38,7 @@ func main() {
 		}
 		r := mc.NewRun(p.ID, tier)
 		r.Build = buildKind
+		r.Extra["alphabet_audit"] = audit.Evidence()
 		p.Run(r)
 		os.Exit(r.Finish())
 	}
